@@ -430,6 +430,12 @@ class Coordinator(object):
         if self._rejoin_wait_dc:
             self._rejoin_wait_dc = None
 
+        if self._stopping:
+            # a rejoin timer armed while stop() was waiting for the leave
+            # reply outlived it: we have left the group, request nothing more
+            log.debug("join_and_sync: stopping")
+            return
+
         if not self._rejoin_needed:
             log.debug("join_and_sync: rejoin not needed")
             return
